@@ -1079,7 +1079,7 @@ def _sample_assignment(case, contract, rng, models, want_model=False):
 def crosscheck_model(contract, case, res, n=10, seed=0):
     """Run-time contract check on the real code: models of the precondition are turned into real objects, the real
     function runs natively and every postcondition is evaluated under the model (engine / contract self-check)."""
-    rng = random.Random(seed * 104729 + hash(case.name) % 100000)
+    rng = random.Random(seed * 104729 + _name_seed(case.name))
     models = contract.models() if contract.models else default_models()
     for _ in range(n):
         zm = _sample_assignment(case, contract, rng, models, want_model=True)
@@ -1131,7 +1131,7 @@ def crosscheck_model(contract, case, res, n=10, seed=0):
 def refute_by_sampling(contract, case, res, n=12, seed=0):
     """For a case whose proof is undecided: sample models of the precondition, build real objects, run the real function natively and evaluate the
     postconditions; a false postcondition becomes a refuted obligation carrying the real failing input (its replay is the run itself)."""
-    rng = random.Random(seed * 7907 + hash(case.name) % 100000)
+    rng = random.Random(seed * 7907 + _name_seed(case.name))
     models = contract.models() if contract.models else default_models()
     seen = set()
     for _ in range(n):
@@ -1189,7 +1189,7 @@ def refute_by_sampling(contract, case, res, n=12, seed=0):
 
 def refute_by_sampling_native(contract, case, res, n=25, seed=0):
     """the same for cases that run natively on plain numbers (cases with crosscheck=True): sampled inputs satisfying requires, the real function, the posts"""
-    rng = random.Random(seed * 7907 + hash(case.name) % 100000)
+    rng = random.Random(seed * 7907 + _name_seed(case.name))
     models = contract.models() if contract.models else default_models()
     seen = set()
     for _ in range(n):
@@ -1276,9 +1276,14 @@ def _close(a, b, tol=1e-7):
     return a == b
 
 
+def _name_seed(name):
+    import zlib
+    return zlib.crc32(name.encode()) % 100000        # (hash() of a str changes from process to process)
+
+
 def crosscheck(contract, case, paths, res, n=25, seed=0):
     """Engine self-check: native CPython result vs. the value of the matching symbolic path."""
-    rng = random.Random(seed * 7919 + hash(case.name) % 100000)
+    rng = random.Random(seed * 7919 + _name_seed(case.name))
     models = contract.models() if contract.models else default_models()
     tried = 0
     for _ in range(n):
@@ -1318,6 +1323,19 @@ def crosscheck(contract, case, paths, res, n=25, seed=0):
                 break
         res.crosscheck["samples"] += 1
         if match is None:
+            # no single symbolic path is known to correspond to the run (loops cut by an invariant or callee contracts introduce fresh symbols): the postconditions that
+            # evaluate to plain booleans on the native run are compared with the contract directly
+            if out_n.kind == "return" and cxn.post_fn is not None:
+                try:
+                    posts_n = cxn.post_fn(out_n) or []
+                except Exception:
+                    continue
+                plain = [(nm, g) for nm, g in posts_n if isinstance(g, bool) or type(g).__name__ == "bool_"]
+                if plain:
+                    res.crosscheck["compared"] += 1
+                    for nm, g in plain:
+                        if not g:
+                            res.crosscheck["mismatches"].append(dict(inputs=asg, note="postcondition %s is false on the native run" % nm, native=repr(out_n.value)[:200]))
             continue
         path, cx, outcome, subs = match
         if outcome.kind == "raise" or out_n.kind == "raise":
